@@ -14,8 +14,16 @@ ASSUMPTIONS = ['theorems are about Msimple (Tame types); the tie to the code is 
 KINDS = ['mixed', 'word', 'worddup', 'perm', 'fwd', 'worddel', 'addonly', 'mixed']
 
 
+def _oracle(d):
+    at = d.get('at', '')
+    if at.startswith(('tostr', 'add', 'rm', 'repl', 'dotx', 'obs')):
+        return 'child structure of the serialised document (C01) at %s: library %s, model %s' % (at, d.get('real'), d.get('model'))
+    return None
+
+
 def run(ctx):
-    return mc.generic_run(ctx, 'C01', KINDS, n_quick=40, n_thorough=400)
+    from props import combined
+    return combined.run_both(ctx, 'C01', KINDS, {'depths': [0, 1, 2, 3], 'mixed': 0.25, 'copy': 0.1, 'dots': True}, _oracle)
 
 
 def replay(ctx, payload):
